@@ -377,6 +377,10 @@ H("C10", file="core/price_db.rs", name="c10_convert_amount", timeout=1800, expec
   bound="holdings in X, Y, T each present or not, 6-bit signed; rates X->T, Y->T each available or not (8-bit positive); unwind 6",
   models=[DEC, MAP, FMT, BUMP], oracle="Err(RateNotFound) iff a held commodity has no rate; Ok => T total == sum value x rate + T holding, nothing else left")
 
+H("C14", file="core/adaptor.rs", name="c14_parsed_context_4", timeout=600, expect_s=15,
+  functions=["ParsedContext::compute_line_start", "ParsedContext::as_str", "ParsedSpan::resolve"],
+  bound="every ASCII text of 0..=4 bytes (a second, smaller query that stays decidable when the line computation gets expensive); unwind 6",
+  models=[FMT], oracle="same as c14_parsed_context_8")
 H("C14", file="core/adaptor.rs", name="c14_parsed_context_8", timeout=600, expect_s=20,
   functions=["ParsedContext::compute_line_start", "ParsedContext::as_str", "ParsedContext::span", "ParsedSpan::resolve", "clip"],
   bound="every ASCII text (CR and LF included) of 0..=8 bytes, entry span s..e, tracked item span inside it; unwind 10", models=[FMT],
@@ -384,8 +388,9 @@ H("C14", file="core/adaptor.rs", name="c14_parsed_context_8", timeout=600, expec
 
 
 # --------------------------------------------------------------------------- C09
-HEAP = "std BinaryHeap -> verif_heap (std's sift algorithm on a fixed array, capacity 2)"
-SORT = "core::slice::sort::unstable::sort -> insertion sort with the caller's comparison"
+HEAP = "std BinaryHeap -> verif_heap (bag of capacity 2; pop returns ANY greatest element, ties a solver variable)"
+SORT = ("core::slice::sort::unstable::sort -> identity (every map of the harness is built in name order, so the slot order the map "
+        "model iterates in is the sorted order; the oracle does not depend on the visiting order)")
 PT_LOOPS = {"compute_price_table": {"1": 6, "0": 3}, "binary_search_by": {"0": 2}}
 prop("C09", title="Commodity conversion uses the right price",
      level_text="Bounded model checking of the price store and the rate search, below the date sort of build_naive: (1) insert_price "
@@ -422,13 +427,13 @@ H("C09", file="core/price_db.rs", name="c09_distance_order", timeout=600, expect
   functions=["Distance::cmp/partial_cmp/eq (derived)", "Distance::extend", "WithDistance ordering impls"],
   bound="every pair of distances with 8-bit components, every extension (source, 8-bit staleness in days); unwind 4", models=[DEC],
   oracle="lexicographic (ledger steps, steps, staleness); extend: +1 ledger step only for a ledger source, +1 step, max staleness")
-H("C09", file="core/price_db.rs", name="c09_asof_direct", timeout=1500, expect_s=230, map_cap=2, env={"VERIF_HEAP_CAP": 2},
+H("C09", file="core/price_db.rs", name="c09_asof_direct", timeout=1800, expect_s=260, mem_gb=10, map_cap=2, env={"VERIF_HEAP_CAP": 2},
   loops={"compute_price_table": {"1": 4, "0": 3}},
   functions=["NaivePriceRepository::compute_price_table", "slice::partition_point", "Distance::extend"],
   bound="one pair, two records on distinct days of an 8-day window, query day in the window, 8-bit rates, either source; "
         "search loop <= 3 pops, neighbour loop <= 2", models=[DEC, MAP, HEAP, SORT, FMT, BUMP],
   oracle="rate == latest record dated <= query day; none when both are later; T in T absent or 1")
-H("C09", file="core/price_db.rs", name="c09_chain_3", timeout=2400, expect_s=540, map_cap=2, mem_gb=12, env={"VERIF_HEAP_CAP": 2},
+H("C09", file="core/price_db.rs", name="c09_chain_3", timeout=2700, expect_s=570, map_cap=2, mem_gb=16, env={"VERIF_HEAP_CAP": 2},
   loops=PT_LOOPS,
   functions=["NaivePriceRepository::compute_price_table", "slice::partition_point", "Distance::extend", "WithDistance ordering", "Decimal * (model)"],
   bound="commodities X, M, T; prices X-in-T, M-in-T, X-in-M each with symbolic source, day (0..3) and 6-bit rate; query day 0..3; "
